@@ -96,6 +96,25 @@ def _parse_tla_value(s):
     return v
 
 
+def _balanced(s):
+    """True when every << has its >> (string literals skipped)."""
+    depth, i, n = 0, 0, len(s)
+    while i < n:
+        c = s[i]
+        if c == '"':
+            i += 1
+            while i < n and s[i] != '"':
+                i += 2 if s[i] == "\\" else 1
+        elif s.startswith("<<", i):
+            depth += 1
+            i += 1
+        elif s.startswith(">>", i):
+            depth -= 1
+            i += 1
+        i += 1
+    return depth <= 0
+
+
 class Run:
     """One invocation of a check."""
 
@@ -146,7 +165,7 @@ class Run:
                 shutil.copy(os.path.join(SPECS, f), wd)
         if defs is not None:
             # model module: constants that a cfg file cannot express (tuples, strings with escapes)
-            mc = "MC" + name
+            mc = "MC" + re.sub(r"[^A-Za-z0-9_]", "_", name)
             with open(os.path.join(wd, mc + ".tla"), "w") as f:
                 f.write("---- MODULE %s ----\nEXTENDS %s\n%s\n====\n" % (mc, module, defs))
             module, name = mc, mc
@@ -181,12 +200,23 @@ class Run:
         r.wall = time.time() - t0
         r.rc = p.returncode
         r.out = p.stdout.decode("utf-8", "replace")
+        pending = None
         for line in r.out.splitlines():
-            if line.startswith("<<"):
-                try:
-                    r.prints.append(_parse_tla_value(line))
-                except Exception:
-                    pass
+            # PrintT values: TLC wraps long tuples over several lines
+            if pending is not None:
+                pending += " " + line.strip()
+            elif line.startswith("<<"):
+                pending = line
+            if pending is not None:
+                if _balanced(pending):
+                    try:
+                        r.prints.append(_parse_tla_value(pending))
+                    except Exception:
+                        pass
+                    pending = None
+                elif len(pending) > 5000000:
+                    pending = None
+                continue
             m = re.match(r'^(\d+) states generated, (\d+) distinct states found', line)
             if m:
                 r.generated, r.distinct = int(m.group(1)), int(m.group(2))
